@@ -574,7 +574,7 @@ class C09(SimSpec):
     prop = 'C09'
     cases = {'quick': 640, 'thorough': 6400}
     rule = ("BatchPlanning+BatchProcessing scenarios (partitions 1-3, minimum, optional per-observation split, >= 2 observations "
-            "so that workflows and ingests compete); non-trivial = >= 2 reservations live at once, or >= 1 refused provisioning "
+            "so that workflows and ingests compete; plus configurations whose minimum exceeds floor(machines/partitions), where no reservation may ever be made); non-trivial = >= 2 reservations live at once, or >= 1 refused provisioning "
             "round; distinct = distinct canonical scenario JSON")
     level_text = ("exploration: every workflow-task allocation lands on a machine the shadow model holds reserved for that "
                   "observation; ingest and reservations only take unreserved free machines; a reservation's machine set never "
@@ -585,9 +585,33 @@ class C09(SimSpec):
         kw = self.gen_kwargs(tier)
         return mix((3, scenarios(algs=('batch',), min_obs=2, delays=True, **kw)),
                    (2, crowd(kw, algs=('batch',), min_obs=3, delays=True)), (2, swarm(kw, algs=('batch',), delays=True)),
-                   (1, scenarios(algs=('batch',), min_obs=3, start_gaps=(0, 0, 1, 2), **kw)))
+                   (1, scenarios(algs=('batch',), min_obs=3, start_gaps=(0, 0, 1, 2), **kw)),
+                   (1, self.starved(scenarios(algs=('batch',), max_obs=3, max_nodes=3, max_duration=4, modes=('roomy',),
+                                              max_machines=kw['max_machines']))))
+
+    @staticmethod
+    def starved(sc_strategy):
+        """minimum reservation size above floor(machines / partitions): no legal reservation exists, so no workflow may ever be
+        given one (the run then never ends - an infeasible configuration, outside C05 - and is cut off a few steps after the
+        last observation; the size clauses are judged on that prefix)"""
+        def mk(pair):
+            sc, extra = pair
+            sc = json.loads(json.dumps(sc))
+            a = sc['alg']
+            a['split'] = False
+            for o in sc['obs']:
+                o.pop('split', None)
+            a['min'] = len(sc['machines']) // a['parts'] + extra
+            sc['infeasible_min'] = True
+            return sc
+        return st.tuples(sc_strategy, st.sampled_from([1, 1, 2])).map(mk)
+
+    def aborted(self, tr):
+        return tr.status != 'completed' and not tr.sc.get('infeasible_min')
 
     def nontrivial(self, tr):
+        if tr.sc.get('infeasible_min'):
+            return bool(tr.counts.get('provision_refused_rounds')) or tr.status == 'budget'
         return tr.max_alive.get('res', 0) >= 2 or bool(tr.counts.get('provision_refused_rounds'))
 
     def classes(self, tr):
@@ -692,7 +716,7 @@ class C13(SimSpec):
     prop = 'C13'
     cases = {'quick': 560, 'thorough': 6400}
     rule = ("scenarios with observations starting at t=0 and at t>0 (the two process orders), all shipped pairings; half of the "
-            "cases are additionally re-run paused at generated points and resumed to the same end; non-trivial = >= 2 "
+            "cases are additionally re-run paused at generated points and resumed to the same end; 4 in 7 roomy cases get an adaptive second run with two extra twin observations whose ingests end together in (or next to) the step in which another observation's workflow is found finished; non-trivial = >= 2 "
             "observations with life-cycle transitions in the same timestep, or an observation starting at t>0 in a multi-"
             "observation plan; distinct = distinct canonical scenario JSON")
     level_text = ("exploration: per observation exactly one log entry per life-cycle transition, stamped with the shadow model's "
@@ -704,16 +728,67 @@ class C13(SimSpec):
         base = mix((3, scenarios(min_obs=2, delays=True, **kw)), (2, crowd(kw)), (2, tight(kw)), (2, swarm(kw, delays=True)),
                    (1, scenarios(unsorted=True, min_obs=2, **kw)), (1, scenarios(**kw)))
 
-        def add(pair):
-            sc, fr = pair
+        def add(t):
+            sc, fr, co = t
             sc = dict(sc)
             sc['pause_frac'] = fr
+            sc['coincide'] = co
             return sc
-        return st.tuples(base, st.one_of(st.just([]), st.lists(st.floats(0.02, 0.98), min_size=1, max_size=3))).map(add)
+        return st.tuples(base, st.one_of(st.just([]), st.lists(st.floats(0.02, 0.98), min_size=1, max_size=3)),
+                         st.sampled_from([None, None, None, 0, 0, -1, 1])).map(add)
+
+    @staticmethod
+    def with_twins(sc, t_end, d):
+        """the scenario plus two small twin observations (own arrays, machines and buffer room, so the others are disturbed as
+        little as possible) whose ingests both end in step t_end: several observations then have transitions in ONE step"""
+        sc2 = json.loads(json.dumps(sc))
+        d = max(1, min(d, t_end + 1))
+        start = t_end - d + 1
+        used = {o['name'] for o in sc2['obs']}
+        names = [n for n in ('tw', 'tx', 'ty', 'tz') if n not in used][:2]
+        for n in names:
+            sc2['obs'].append({'name': n, 'start': start, 'duration': d, 'demand': 1, 'rate': 1, 'ingest': 1,
+                               'wf': {'nodes': [{'id': 0, 'comp': sc2['machines'][0]['flops']}], 'edges': []},
+                               'plan': {'0': len(sc2['machines'])}})
+        sc2['arrays'] += 2
+        if sc2.get('mnames'):
+            sc2['mnames'] = list(sc2['mnames']) + ['zz1', 'zz2']
+        sc2['machines'] += [dict(sc2['machines'][0]), dict(sc2['machines'][0])]
+        sc2['max_ingest'] += 2
+        sc2['hot']['capacity'] += int(2 * d / 0.6) + 2
+        sc2['cold']['capacity'] = max(sc2['cold']['capacity'], d)
+        if sc2['alg'].get('split'):
+            for o in sc2['obs'][-2:]:
+                o['split'] = [1, 1]
+        return sc2, names
 
     def run(self, sc):
         tr = run_scenario(sc)
         tr.paused = None
+        tr.twin = None
+        co = sc.get('coincide')
+        if (co is not None and tr.status == 'completed' and sc['mode'] == 'roomy' and sc.get('unit', 'seconds') == 'seconds'
+                and sc['alg']['kind'] != 'adversary'):
+            # adaptive second run: two twin observations whose ingests end in the very step in which (or next to which) another
+            # observation's workflow is found finished; one correction round, because the twins themselves shift the others a little
+            ends = sorted((r['dequeued_at'], n) for n, r in tr.obs.items() if r['dequeued_at'] is not None and r['dequeued_at'] >= 2)
+            if ends:
+                t_x, x = ends[0]
+                target = int(t_x) + co
+                for _ in range(2):
+                    sc2, names = self.with_twins(sc, target, 3)
+                    t2 = run_scenario(sc2)
+                    if t2.status != 'completed':
+                        break
+                    got_x = t2.obs[x]['dequeued_at']
+                    tr.twin = t2
+                    t2.twin_names = names
+                    b = t2.obs[names[0]]['begin']
+                    hit = got_x is not None and b is not None and int(b) + min(3, target + 1) - 1 == int(got_x) + co
+                    tr.counts['twin_coincidence'] = int(hit)
+                    if got_x is None or int(got_x) + co == target:
+                        break
+                    target = int(got_x) + co
         if tr.status == 'completed' and sc.get('pause_frac'):
             T = int(tr.final_now)
             pts = sorted({max(1, min(T - 1, int(f * T))) for f in sc['pause_frac']}) if T > 1 else []
@@ -724,6 +799,13 @@ class C13(SimSpec):
 
     def violations(self, tr):
         out = O.C13(tr)
+        if getattr(tr, 'twin', None) is not None:
+            for v in O.C13(tr.twin):
+                v = dict(v)
+                v['part'] = 'twins_' + v['part']
+                v['msg'] = f"(with two extra twin observations {tr.twin.twin_names} whose ingests end together) " + v['msg']
+                out.append(v)
+            tr.counts['twin_runs'] = 1
         if tr.paused is not None:
             p = tr.paused
             if p.status != 'completed':
@@ -750,6 +832,7 @@ class C13(SimSpec):
 
     def classes(self, tr):
         return {'paused_variant': int(tr.paused is not None),
+                'twin_runs': tr.counts.get('twin_runs', 0), 'twin_coincidence': tr.counts.get('twin_coincidence', 0),
                 'starts_at_0': sum(1 for r in tr.obs.values() if r['begin'] == 0),
                 'starts_later': sum(1 for r in tr.obs.values() if r['begin'])}
 
